@@ -41,13 +41,13 @@ type FuncInfo struct {
 }
 
 type Prog struct {
-	Fset    *token.FileSet
-	Pkgs    map[string]*packages.Package // by short name: store, object, cmd ...
-	Funcs   map[string]*FuncInfo
-	ByObj   map[*types.Func]*FuncInfo
-	Specs   map[string]*PkgSpec // by pkg short name
-	Structs []*types.Named      // repo struct types in dependency order
-	MapTypes []*types.Map
+	Fset       *token.FileSet
+	Pkgs       map[string]*packages.Package // by short name: store, object, cmd ...
+	Funcs      map[string]*FuncInfo
+	ByObj      map[*types.Func]*FuncInfo
+	Specs      map[string]*PkgSpec // by pkg short name
+	Structs    []*types.Named      // repo struct types in dependency order
+	MapTypes   []*types.Map
 	structSeen map[string]bool
 }
 
@@ -301,38 +301,38 @@ type Obligation struct {
 	Pos      string
 	Src      string // source text of the asserted clause / expression
 	// results
-	Status   string // unsat (discharged), sat, unknown, timeout, error
-	Solver   string
-	TimeS    float64
-	Model    string
-	Outputs  map[string]string
+	Status  string // unsat (discharged), sat, unknown, timeout, error
+	Solver  string
+	TimeS   float64
+	Model   string
+	Outputs map[string]string
 }
 
 // FuncGen: verification-condition generation for one function.
 type FuncGen struct {
-	P        *Prog
-	F        *FuncInfo
-	trace    []string
-	nfresh   int
-	obls     []*Obligation
-	occ      map[string]int
-	factSeen map[string]bool
-	lits     map[string]string // string literal -> const name
-	litOrder []string
-	heapKeys map[string]string // heap key -> sort of the array
-	entry    *State
-	results  []*types.Var
-	resVals  []types.Object
-	returns  []*State
-	quiet    int // >0: spec evaluation, no safety obligations
-	loopOrd  int
-	notes    []string // assumptions / uncontracted callees etc.
-	unbound  string   // non-empty: function could not be lowered
-	info     *types.Info
+	P         *Prog
+	F         *FuncInfo
+	trace     []string
+	nfresh    int
+	obls      []*Obligation
+	occ       map[string]int
+	factSeen  map[string]bool
+	lits      map[string]string // string literal -> const name
+	litOrder  []string
+	heapKeys  map[string]string // heap key -> sort of the array
+	entry     *State
+	results   []*types.Var
+	resVals   []types.Object
+	returns   []*State
+	quiet     int // >0: spec evaluation, no safety obligations
+	loopOrd   int
+	notes     []string // assumptions / uncontracted callees etc.
+	unbound   string   // non-empty: function could not be lowered
+	info      *types.Info
 	extraDecl []string // uninterpreted functions declared on demand
-	declSeen map[string]bool
+	declSeen  map[string]bool
 	curAlloc0 string
-	maxTrace int
+	maxTrace  int
 }
 
 type unboundErr struct{ msg string }
